@@ -32,7 +32,7 @@ let istate_of (c : case) (m : mstate) : istate =
    | Some c' when c' == c -> ()
    | _ -> armed_case := Some c; freed := []; faulted := false; pending := [];
      armed := List.rev_map (fun (id, (cl, a, t)) -> (zi id, ((zi cl, zi a), zi t))) c.mus);
-  { i_root = m.m_root; i_freed = !freed; i_holds = (match m.m_root.r_dsrc with Some x when not cfg.d_drag_stale && iz x <> 0 -> [x] | _ -> []); i_pending = !pending; i_armed = !armed; i_log = []; i_fault = false }
+  { i_root = m.m_root; i_freed = !freed; i_holds = []; i_pending = !pending; i_armed = !armed; i_log = []; i_fault = false }
 
 let finish (m : mstate) (s : istate) : mstate * string =
   freed := s.i_freed; armed := s.i_armed; pending := s.i_pending;
